@@ -90,9 +90,10 @@ def _ns_grew(a, b, top=True):
     return ok
 
 
-def only_ns_gained(before, after):
-    """signature of the known finding: content identical, only bundles of the source gained namespace declarations"""
-    if _strip_ns(before) == _strip_ns(after) and _ns_grew(before, after):
+def only_ns_gained(before, after, source_is_bundle=False):
+    """signature of the known finding: content identical, only bundles of the source (or the source itself when it is a bundle)
+    gained namespace declarations"""
+    if _strip_ns(before) == _strip_ns(after) and _ns_grew(before, after, top=not source_is_bundle):
         return "C08:copy-registers-delegated-namespace-in-source-bundle"
     return None
 
@@ -130,7 +131,7 @@ def check_unified(ctx, w, c, fails, flags):
     case = {"ops": list(w.ops)}
     after = proto.canon_cont(cont)
     if after != before:
-        fails.append(Failure("oracle", only_ns_gained(before, after), "unified() changed its source: " + describe_change(before, after), case))
+        fails.append(Failure("oracle", only_ns_gained(before, after, source_is_bundle=not cont.is_document()), "unified() changed its source: " + describe_change(before, after), case))
     all_specs = [spec] + list(bundle_specs.values())
     if any(s is None for s in all_specs):
         ctx.count("unspecified-membership")
